@@ -85,6 +85,7 @@ type relExec struct {
 	inDone    string
 	action    string
 	positives map[string]bool
+	sawRecover map[string]bool // cache entries a completed recover() has looked at since they were scripted
 	polledVer map[string]relVersion
 	wasSentNo map[string]bool
 	logCount  map[string]int
@@ -1106,6 +1107,23 @@ func (e *relExec) doRecover() string {
 			e.failf("recover-forgets: %s is cached, not done, unchanged and hashed, the receiver answered %s, but recover() queued nothing for it", n, verdict[n])
 		}
 	}
+	// oracle ignored_dropped (C17): an entry that is not done and whose file the store ignores now leaves the cache,
+	// whatever else is true of it (no hash, changed, listed as partial)
+	if err == nil {
+		if e.sawRecover == nil {
+			e.sawRecover = map[string]bool{}
+		}
+		for n, s := range before {
+			if !s.done { // recover() examines the entries that are not done
+				e.sawRecover[n] = true
+			}
+		}
+		for n, s := range before {
+			if _, still := after[n]; still && !s.done && strings.HasPrefix(n, "ign") {
+				e.failf("ignored-kept: recover kept the cache entry of %s (hash %q), which the store ignores now; the next scan hashes entries without a hash and queues them without asking the ignore rules", n, s.hash)
+			}
+		}
+	}
 	// oracle cache_never_forgets
 	for n, s := range before {
 		a, still := after[n]
@@ -1183,6 +1201,16 @@ func (e *relExec) doScan() string {
 			e.failf("changed-file-lost: the cache does not describe the scanned version of %s", n)
 		} else if a.done {
 			e.failf("changed-file-still-done: %s was found changed and queued, but its cache entry still says done", n)
+		}
+	}
+	// oracle ineligible_never_queued (C17): what the store ignores is never handed on for sending - not through the
+	// straggler path either (a cache entry without a hash is hashed and queued by the next scan without a look at
+	// the ignore rules: recover() must have dropped it)
+	for n := range readyNames {
+		// (a scripted cache entry that no recover() has seen is not a state of a running sender: every process starts
+		// with recover() and the ignore rules do not change while it runs)
+		if strings.HasPrefix(n, "ign") && e.sawRecover[n] {
+			e.failf("ineligible-queued: scan handed on %s, which the store ignores", n)
 		}
 	}
 	// oracle cache_never_forgets
@@ -1626,6 +1654,7 @@ func (e *relExec) Do(op []string) string {
 		}
 		return "ok"
 	case len(op) == 6 && op[0] == "cache":
+		delete(e.sawRecover, unesc(op[1]))
 		size, ok1 := atoi(op[2])
 		t, ok2 := relParseTime(op[3])
 		done, ok3 := bit(op[5])
